@@ -59,12 +59,13 @@ class VR(Renderable):
     which honours every kind of seek (clamped at the beginning, StopIteration past the
     end)."""
 
-    def __init__(self, n, dur, size, total, faults, stamp):
+    def __init__(self, n, dur, size, total, faults, stamp, ffaults=None):
         super().__init__(FrameCount.INDEFINITE if n is None else n, dur)
         self._vsize = size
         self._total = total
         self._faults = faults
         self._stamp = stamp
+        self._ffaults = ffaults or {}
         self.calls = 0
         self.log = []
         self.created = 0
@@ -97,6 +98,8 @@ class VR(Renderable):
         self.log.append([d.frame_offset, WHENCE.index(d.seek_whence), w, h, durcode, a,
                          int(render_data.finalized)])
         kind = self._faults.get(call)
+        if kind is None and self.frame_count is not FrameCount.INDEFINITE:
+            kind = self._ffaults.get(d.frame_offset)
         if kind is not None:
             exc = StopIteration("injected") if kind == 0 else FAULTS[kind]("injected")
             exc._verif_kind = kind
@@ -269,8 +272,9 @@ def apply_op(it, o):
 
 def make_renderable(case):
     faults = {int(k): v for k, v in case.get("faults", {}).items()}
+    ffaults = {int(k): v for k, v in case.get("ffaults", {}).items()}
     r = VR(case["n"], mk_dur(case["dur"]), Size(*case["size"]), case.get("total", 5), faults,
-           case.get("stamp", False))
+           case.get("stamp", False), ffaults)
     if case["n"] is not None and case.get("frame", 0):
         r.seek(case["frame"])
     return r
